@@ -47,14 +47,19 @@ STUBS = dict(file=FC, name="fv_formm", vis="pub(crate) ", code="""
     pub(crate) static mut FV_TABLE_CALLS: [(u32, u32); 4] = [(0, 0); 4];
     pub(crate) static mut FV_TABLE_N: usize = 0;
 
+    /// records the request and returns the simplest table satisfying WinInv (one tap per window at position 0):
+    /// the planning obligations only observe WHICH tables are requested, the kernels just have to run
     pub(crate) fn fv_stub_precompute_coefficients_rec(
-        in_size: u32, in0: f64, in1: f64, out_size: u32, f: fn(f64) -> f64, s: f64, a: bool,
+        in_size: u32, _in0: f64, _in1: f64, out_size: u32, _f: fn(f64) -> f64, _s: f64, _a: bool,
     ) -> Coefficients {
         unsafe {
             if FV_TABLE_N < 4 { FV_TABLE_CALLS[FV_TABLE_N] = (in_size, out_size); }
             FV_TABLE_N += 1;
         }
-        fv_stub_precompute_coefficients_ordered(in_size, in0, in1, out_size, f, s, a)
+        let mut bounds = Vec::with_capacity(out_size as usize);
+        let mut values = Vec::with_capacity(out_size as usize);
+        for _ in 0..out_size { bounds.push(Bound { start: 0, size: 1 }); values.push(1.0); }
+        Coefficients { values, window_size: 1, bounds }
     }
 
     /// the same, with the additional facts K6 establishes for the real code on built-in (tail-zero) filters:
@@ -74,6 +79,15 @@ STUBS = dict(file=FC, name="fv_formm", vis="pub(crate) ", code="""
 """)
 
 NSTUB = dict(file=FO, name="fv_nstub", vis="pub(crate) ", code="""
+    /// concrete stand-in used by the planning harnesses: identity taps (1.0 at precision 14)
+    pub(crate) fn fv_stub_normalizer16_new_identity(coefficients: Coefficients) -> Normalizer16 {
+        let mut chunks = Vec::with_capacity(coefficients.bounds.len());
+        for b in coefficients.bounds.iter() {
+            chunks.push(CoefficientsI16Chunk { start: b.start, values: vec![16384i16] });
+        }
+        Normalizer16 { precision: 14, chunks }
+    }
+
     /// Contract stand-in for Normalizer16::new (unit K4): chunk starts / lengths copied from the bounds,
     /// arbitrary i16 taps, precision in the panic-free range.
     pub(crate) fn fv_stub_normalizer16_new(coefficients: Coefficients) -> Normalizer16 {
@@ -108,12 +122,14 @@ CODE = """
     }
 
     // ---------------------------------------------------------------- G9 / C12: same size => exact copy
-    fn same_size_copy(w: u32, h: u32) {
+    fn same_size_copy(w: u32, h: u32, l: u32, t: u32) {
+        // crop origin concrete (a symbolic origin keeps the copy test symbolic and drags every algorithm into the formula);
+        // contents, algorithm, filter, multiplicity and the alpha flag are symbolic
         let sp: [u16; 9] = kani::any();
-        let src: [U16x2; 9] = [U16x2::new([sp[0], !sp[0]]), U16x2::new([sp[1], !sp[1]]), U16x2::new([sp[2], !sp[2]]), U16x2::new([sp[3], !sp[3]]), U16x2::new([sp[4], !sp[4]]), U16x2::new([sp[5], !sp[5]]), U16x2::new([sp[6], !sp[6]]), U16x2::new([sp[7], !sp[7]]), U16x2::new([sp[8], !sp[8]])];
+        let src: [U16x2; 9] = [U16x2::new([sp[0], !sp[0]]), U16x2::new([sp[1], !sp[1]]), U16x2::new([sp[2], !sp[2]]),
+                               U16x2::new([sp[3], !sp[3]]), U16x2::new([sp[4], !sp[4]]), U16x2::new([sp[5], !sp[5]]),
+                               U16x2::new([sp[6], !sp[6]]), U16x2::new([sp[7], !sp[7]]), U16x2::new([sp[8], !sp[8]])];
         let mut dst = [U16x2::new([7, 7]); 10];
-        let (l, t): (u32, u32) = (kani::any(), kani::any());
-        kani::assume(l + w <= 3 && t + h <= 3);
         let opts = ResizeOptions::new().resize_alg(any_alg()).crop(l as f64, t as f64, w as f64, h as f64).use_alpha(kani::any());
         let mut r = fv_resizer(Vec::new(), Vec::new(), Vec::new());
         {
@@ -128,11 +144,11 @@ CODE = """
         assert!(dst[(w * h) as usize].0 == [7, 7]);         // spare pixel untouched
         assert!(r.size_of_internal_buffers() == 0);        // no scratch buffer was needed: nothing was resampled
     }
-    #[kani::proof] #[kani::unwind(7)] fn c12_copy_1x1() { same_size_copy(1, 1) }
-    #[kani::proof] #[kani::unwind(7)] fn c12_copy_2x2() { same_size_copy(2, 2) }
-    #[kani::proof] #[kani::unwind(7)] fn c12_copy_3x2() { same_size_copy(3, 2) }
-    #[kani::proof] #[kani::unwind(7)] fn c12_copy_1x3() { same_size_copy(1, 3) }
-    #[kani::proof] #[kani::unwind(7)] fn c12_copy_3x3() { same_size_copy(3, 3) }
+    #[kani::proof] #[kani::unwind(7)] fn c12_copy_1x1() { same_size_copy(1, 1, 2, 1); same_size_copy(1, 1, 0, 2) }
+    #[kani::proof] #[kani::unwind(7)] fn c12_copy_2x2() { same_size_copy(2, 2, 1, 0); same_size_copy(2, 2, 0, 1) }
+    #[kani::proof] #[kani::unwind(7)] fn c12_copy_3x2() { same_size_copy(3, 2, 0, 1) }
+    #[kani::proof] #[kani::unwind(7)] fn c12_copy_1x3() { same_size_copy(1, 3, 2, 0) }
+    #[kani::proof] #[kani::unwind(7)] fn c12_copy_3x3() { same_size_copy(3, 3, 0, 0) }
 
     // copy_image's own contract: Ok <=> integral crop with dst dims == crop dims; on Err dst untouched
     #[kani::proof]
@@ -307,7 +323,7 @@ PLAN = """
     #[kani::proof]
     #[kani::unwind(7)]
     #[kani::stub(crate::convolution::precompute_coefficients, crate::convolution::fv_formm::fv_stub_precompute_coefficients_rec)]
-    #[kani::stub(crate::convolution::optimisations::Normalizer16::new, crate::convolution::optimisations::fv_nstub::fv_stub_normalizer16_new)]
+    #[kani::stub(crate::convolution::optimisations::Normalizer16::new, crate::convolution::optimisations::fv_nstub::fv_stub_normalizer16_new_identity)]
     fn k8_plan_width_matches() {
         let (n, c0, _) = plan(2, 3, 0.0, 2.0, 2, 2);
         assert!(n == 1 && c0 == (3, 2));      // only the vertical table (rows 3 -> 2): no resampling along the matching width
@@ -316,7 +332,7 @@ PLAN = """
     #[kani::proof]
     #[kani::unwind(7)]
     #[kani::stub(crate::convolution::precompute_coefficients, crate::convolution::fv_formm::fv_stub_precompute_coefficients_rec)]
-    #[kani::stub(crate::convolution::optimisations::Normalizer16::new, crate::convolution::optimisations::fv_nstub::fv_stub_normalizer16_new)]
+    #[kani::stub(crate::convolution::optimisations::Normalizer16::new, crate::convolution::optimisations::fv_nstub::fv_stub_normalizer16_new_identity)]
     fn k8_plan_height_matches() {
         let (n, c0, _) = plan(3, 2, 0.0, 3.0, 2, 2);
         assert!(n == 1 && c0 == (3, 2));      // only the horizontal table (columns 3 -> 2)
@@ -325,7 +341,7 @@ PLAN = """
     #[kani::proof]
     #[kani::unwind(7)]
     #[kani::stub(crate::convolution::precompute_coefficients, crate::convolution::fv_formm::fv_stub_precompute_coefficients_rec)]
-    #[kani::stub(crate::convolution::optimisations::Normalizer16::new, crate::convolution::optimisations::fv_nstub::fv_stub_normalizer16_new)]
+    #[kani::stub(crate::convolution::optimisations::Normalizer16::new, crate::convolution::optimisations::fv_nstub::fv_stub_normalizer16_new_identity)]
     fn k8_plan_fractional_offset() {
         // width matches (crop 2 wide -> dst 2 wide) but the crop starts at a half pixel: a horizontal pass IS required
         let (n, c0, c1) = plan(3, 3, 0.5, 2.0, 2, 2);
@@ -335,7 +351,7 @@ PLAN = """
     #[kani::proof]
     #[kani::unwind(7)]
     #[kani::stub(crate::convolution::precompute_coefficients, crate::convolution::fv_formm::fv_stub_precompute_coefficients_rec)]
-    #[kani::stub(crate::convolution::optimisations::Normalizer16::new, crate::convolution::optimisations::fv_nstub::fv_stub_normalizer16_new)]
+    #[kani::stub(crate::convolution::optimisations::Normalizer16::new, crate::convolution::optimisations::fv_nstub::fv_stub_normalizer16_new_identity)]
     fn k8_plan_both_passes() {
         let (n, c0, c1) = plan(3, 2, 0.0, 3.0, 2, 1);
         assert!(n == 2 && c0 == (3, 2) && c1 == (2, 1));   // horizontal table first (columns 3 -> 2), then vertical (rows 2 -> 1)
@@ -375,10 +391,10 @@ UNIT = dict(
                    dict(file=FR, fn="resample_convolution"), dict(file=FR, fn="do_convolution")],
         modules=[SUPPORT_MODULE, MD, STUBS, NSTUB, dict(file=FR, name="fv_p", code=CODE + FORMM + PLAN)],
         harnesses=[
-            dict(name="c12_copy_1x1", kind="bounded", timeout=900, props=["C12", "C05", "C03"], bound="src 3x3 U16x2, crop 1x1 at every integer origin, every algorithm/filter/multiplicity, alpha on/off", claim="dst is the bit-exact crop region; spare pixel untouched; no scratch buffer allocated"),
-            dict(name="c12_copy_2x2", kind="bounded", timeout=900, props=["C12", "C05", "C03"], bound="src 3x3 U16x2, crop 2x2, all origins/algorithms", claim="bit-exact copy"),
-            dict(name="c12_copy_3x2", kind="bounded", timeout=900, props=["C12"], bound="src 3x3 U16x2, crop 3x2", claim="bit-exact copy"),
-            dict(name="c12_copy_1x3", kind="bounded", timeout=900, props=["C12"], bound="src 3x3 U16x2, crop 1x3", claim="bit-exact copy"),
+            dict(name="c12_copy_1x1", kind="bounded", timeout=900, props=["C12", "C05", "C03"], bound="src 3x3 U16x2, crop 1x1 at (2,1) and (0,2); every algorithm/filter/multiplicity, alpha on/off, all contents", claim="dst is the bit-exact crop region; spare pixel untouched; no scratch buffer allocated"),
+            dict(name="c12_copy_2x2", kind="bounded", timeout=900, props=["C12", "C05", "C03"], bound="src 3x3 U16x2, crop 2x2 at (1,0) and (0,1), every algorithm", claim="bit-exact copy"),
+            dict(name="c12_copy_3x2", kind="bounded", timeout=900, props=["C12"], bound="src 3x3 U16x2, crop 3x2 at (0,1), every algorithm", claim="bit-exact copy"),
+            dict(name="c12_copy_1x3", kind="bounded", timeout=900, props=["C12"], bound="src 3x3 U16x2, crop 1x3 at (2,0), every algorithm", claim="bit-exact copy"),
             dict(name="c12_copy_3x3", kind="bounded", timeout=900, props=["C12"], bound="src 3x3 U16x2, whole image", claim="bit-exact copy"),
             dict(name="g9_copy_image_contract", kind="bounded", covers=1, timeout=900, props=["C12", "C05", "C03"],
                  bound="src 3x2 U8, dst 2x1, EVERY f64 crop box accepted by crop()", claim="copy_image: Ok <=> integral crop of the dst size; Ok => exact region; Err => dst untouched"),
